@@ -100,7 +100,7 @@ def pseudo_cyclic(V, dtype, container):
 
 # ------------------------------------------------------------------------------------ unbounded helper contracts
 @unit('C13', 'determine_peak_only_delta_series_4_cleaned_data', functions=[PK + 'determine_peak_only_delta_series_4_cleaned_data'],
-      modes=('unbounded',), budget_ms=20000)
+      modes=('unbounded',), budget_ms=60000)
 def delta_cleaned(V):
     st = {}
 
@@ -129,7 +129,7 @@ def delta_cleaned(V):
 
 
 @unit('C13', '_determine_peak_only_series_4_cleaned_data', functions=[PK + '_determine_peak_only_series_4_cleaned_data'],
-      modes=('unbounded',), budget_ms=20000)
+      modes=('unbounded',), budget_ms=60000)
 def cyclic_cleaned(V):
     st = {}
 
